@@ -23,6 +23,8 @@ import (
 	"sort"
 	"strings"
 	"text/template/parse"
+	"time"
+	"unicode/utf8"
 
 	"github.com/sourcegraph/zoekt/query"
 
@@ -183,7 +185,11 @@ func runPage(w *gen.Writer, ps pageSpec, class string) {
 		if !strings.HasPrefix(attack.ctype, "text/plain") || !attack.nosniff {
 			fail("error-page-not-plain-text:"+ps.Page, fmt.Sprintf("status %d with Content-Type %q", attack.status, attack.ctype))
 		}
-		fail("render-failed:"+ps.Page, fmt.Sprintf("status %d: %s", attack.status, clipStr(string(attack.body), 200)))
+		key := "render-failed:" + ps.Page
+		if ps.Page == "print" && !utf8.Valid(ps.Payload) && bytes.Contains(attack.body, []byte("invalid UTF-8")) {
+			key = "print-page-rejects-invalid-utf8-name"
+		}
+		fail(key, fmt.Sprintf("status %d: %s", attack.status, clipStr(string(attack.body), 200)))
 	} else {
 		sa, urlsA, errA := skeleton(attack.body)
 		sc, _, errC := skeleton(calm.body)
@@ -316,6 +322,8 @@ func main() {
 	}
 	r := gen.NewRand(f.Seed)
 
+	t0 := time.Now()
+	lap := func(name string) { w.Count("ms-"+name, int(time.Since(t0).Milliseconds())); t0 = time.Now() }
 	// A. probes
 	payloads := append([]string{}, fixedPayloads...)
 	payloads = append(payloads, everyByte()...)
@@ -328,6 +336,7 @@ func main() {
 		}
 	}
 
+	lap("probes")
 	// B. pages
 	for _, p := range fixedPayloads {
 		pagesFor(w, r, p, "page")
@@ -339,7 +348,9 @@ func main() {
 		runBadTemplate(w, t, "bad-template")
 	}
 	_ = query.Parse
+	lap("pages")
 
 	// C. real shards
 	runEndToEnd(w, r, f)
+	lap("e2e")
 }
